@@ -176,6 +176,7 @@ let run_sqlhist u line =
          | ["len"] -> Some SLen
          | ["setmax"; n] -> Some (SSetMax (nat_of_int (int_of_string n)))
          | ["reopen"] -> Some SReopen
+         | ["reopen2"; igs; igd] -> Some (SReopenCfg (parse_bool igs, parse_bool igd))
          | ["save"] | ["append"] -> Some SLen            (* save / append to the database's own path change nothing: run as a len whose answer is not printed *)
          | ("search" :: _) | ("sw" :: _) -> None        (* full-text search: not modelled *)
          | _ -> failwith ("bad sqlhist op: " ^ o) in
@@ -272,7 +273,8 @@ let parse_layout (tok : string) : dentry list =
         let kind = t.[0] and rest = String.sub t 1 (String.length t - 1) in
         match kind with
         | 'F' -> add_root (parse_str rest) false
-        | 'D' -> add_root (parse_str rest) true
+        | 'D' | 'S' -> add_root (parse_str rest) true       (* S: the same directory reached through a symbolic link *)
+        | 'X' -> ()                                         (* a dangling symbolic link: not an entry any completion offers *)
         | 'G' | 'H' ->
           (match String.split_on_char '|' rest with
            | [p; n] ->
@@ -415,6 +417,7 @@ let parse_tkey (t : string) : key =
 let parse_tcmd (t : string list) : cmd =
   match t with
   | ["yankpop"] -> CYankPop | ["accept"] -> CAcceptLine | ["newline"] -> CNewline | ["abort"] -> CAbort
+  | ["acceptend"] -> CAcceptOrInsertLine false
   | ["bol"] -> CMove MBeginningOfLine | ["upcase"] -> CUpcaseWord | ["undo"] -> CUndo (nat_of_int 1)
   | ["insert"; s] -> CInsert (nat_of_int 1, parse_str s)
   | ["hsb"] -> CHistorySearchBackward | ["hsf"] -> CHistorySearchForward
